@@ -175,8 +175,21 @@ impl Property for C14 {
         let via_cli = t.chance(1, 8);
         let prelude = "constraint c = in 1..5;\n";
         let mut src = String::from(prelude);
+        let mut o_between = false;
         src.push_str(&format!("let v = {};\n", expr));
         for i in 0..outs {
+            if t.chance(1, 2) {
+                // evaluation that goes through nested VMs before / between the out statements
+                src.push_str(*t.pick(&[
+                    "let idf = func (a) => a;\nlet w1 = idf(1);\n",
+                    "let w2 = map(func (e) => e + 1, [1, 2]);\n",
+                    "let w3 = \"@{item + 1}\" % 1;\n",
+                    "let md = module {a = 1} => (r) { let r = mod.a; };\nlet w4 = md{a = 2};\n",
+                    "let lists = import \"std/lists.ucg\";\nlet w5 = lists.len([1]);\n",
+                    "let w6 = reduce(func (acc, e) => acc + e, 0, [1, 2]);\n",
+                ]));
+                o_between = true;
+            }
             if i == 1 {
                 // the second out statement may name another converter
                 let (c2, _) = CONVERTERS[t.choice(CONVERTERS.len())];
@@ -190,6 +203,9 @@ impl Property for C14 {
         o.key = fnv(rendered.as_bytes());
         o.class(conv);
         o.class(&format!("outs-{}", outs));
+        if o_between {
+            o.class("nested-evaluation-around-out");
+        }
 
         // the oracle: what `convert` evaluates to
         self.ucg.reset();
@@ -308,7 +324,7 @@ impl Property for C14 {
                 } else if !new_files.is_empty() {
                     o.fail("C14/failed-build-leaves-artifact", format!("the conversion failed ({}) but new file(s) {:?} were left behind ({} bytes)\n{}", diag.lines().last().unwrap_or(""), new_files, new_files.iter().map(|f| after[*f].len().to_string()).collect::<Vec<_>>().join(","), rendered));
                 } else if !changed.is_empty() {
-                    o.fail("C14/failed-build-destroys-artifact", format!("the conversion failed ({}) and the pre-existing artifact {:?} was changed: {} bytes before, {} bytes after\n{}", diag.lines().last().unwrap_or(""), changed, before[changed[0]].len(), after[changed[0]].len(), rendered));
+                    o.fail("C14/failed-build-destroys-artifact", format!("the conversion failed ({}) and the pre-existing artifact {:?} was changed: {} bytes before, {} after\n{}", diag.lines().last().unwrap_or(""), changed, before[changed[0]].len(), after.get(changed[0]).map(|b| format!("{} bytes", b.len())).unwrap_or_else(|| "deleted".to_string()), rendered));
                 } else if diag.trim().is_empty() {
                     o.fail("C14/no-diagnostic", format!("the build failed without a diagnostic\n{}", rendered));
                 }
